@@ -536,6 +536,39 @@ def _yielded_index(I, env):
         if c[0] == 'call' and c[1].endswith(('::position', '::rposition')) and c[2]:
             src = c[2][0]
             src = env.get(src[1], src) if src[0] == 'ref' else src
+    # Some(i) payload of `X.iter().enumerate().find_map(|(i, x)| cond.then_some(i))`: the counter of the element that was found
+    fm = None
+    if v[0] == 'field' and v[2] == '0' and v[1][0] == 'downcast' and v[1][2] == 'Some':
+        fm = v[1][1]
+    elif v[0] == 'okval':
+        fm = v[1]
+    if src is None and fm is not None and fm[0] == 'call' and fm[1].endswith('::find_map') and len(fm[2]) == 2:
+        it = fm[2][0]
+        it = env.get(it[1], it) if it[0] == 'ref' else it
+        clo = fm[2][1]
+        clo = env.get(clo[1], clo) if clo[0] == 'ref' else clo
+        F_ = _CUR_F[0]
+        if it[0] == 'call' and it[1].endswith('::enumerate') and it[2] and clo[0] == 'closure' and F_ is not None and clo[1] in F_.fns:
+            yields_counter = True
+            n_ret = 0
+            for cp_ in AbsInt(F_, F_.fns[clo[1]], max_paths=50).run():
+                if cp_.exit != 'return':
+                    continue
+                n_ret += 1
+                r_ = simp(cp_.env.get('_0'))
+                idx_ = None
+                if r_[0] == 'call' and r_[1].endswith('then_some') and len(r_[2]) == 2:
+                    idx_ = r_[2][1]
+                elif r_[0] == 'agg' and r_[2] == 'Some' and r_[3]:
+                    idx_ = r_[3][0]
+                elif r_[0] == 'agg' and r_[2] == 'None':
+                    continue
+                while isinstance(idx_, tuple) and idx_ and idx_[0] in ('cast', 'deref'):
+                    idx_ = idx_[1]
+                if idx_ != ('field', ('local', 2), '0'):
+                    yields_counter = False
+            if yields_counter and n_ret:
+                src = it[2][0]
     if src is None:
         return None
     for _ in range(4):
@@ -550,7 +583,7 @@ def _stable_from_value(p, I, pos, cont, env):
     """the container is not changed between the call that produced I and the site"""
     blk = None
     for v in subtrees(I):
-        if v[0] == 'call' and v[1].endswith(('Iterator>::next', 'Iterator::next', '::position', '::rposition')):
+        if v[0] == 'call' and v[1].endswith(('Iterator>::next', 'Iterator::next', '::position', '::rposition', '::find_map')):
             blk = v[3]
     if blk is None:
         return False
@@ -630,6 +663,35 @@ def assertion_infeasible(F, site):
 
 _CUR_F = [None]
 _ALL_SITES = [None]
+_CTX = [None]
+_OPEN = {}
+
+
+def _unsafe_open_fns():
+    """functions with an unsafe operation whose obligation no rule discharges (R02.7 inventory, unchecked bitmap accesses of the
+    collector): there a debug assertion may be all that stands for the safety condition"""
+    ctx = _CTX[0]
+    if ctx is None:
+        return set()
+    key = id(ctx)
+    if key not in _OPEN:
+        from framework import Report
+        from rules import unsafe_inv
+        tmp = Report('tmp', 'quick')
+        tmp.rule('X', 'x')
+        try:
+            unsafe_inv.check(ctx, tmp, 'X')
+            bad = {o['key'].split('|')[1] for o in tmp.obs if not o['ok']}
+        except CheckerError:
+            bad = None
+        F = ctx.facts()
+        if bad is None:
+            bad = {f.path for f in F.all_fns}
+        for f in F.all_fns:
+            if any('bitvec' in callee_name(t) and 'unchecked' in callee_name(t) for b, t in f.calls()):
+                bad.add(f.path)
+        _OPEN[key] = bad
+    return _OPEN[key]
 
 
 def path_discharge(F, site):
@@ -1407,12 +1469,17 @@ def developer_assertion(F, s):
     after = set()
     for c0 in cont:
         after |= fn.reachable(c0, stop=headers)
-    for b, t in fn.calls():
-        if b in after and t['callee'].get('unsafe') and user_site(t['span']):
-            return None
-    for b, si, st in fn.stmts():
-        if b in after and st['k'] == 'assign' and st['rv']['k'] == 'rawptr':
-            return None
+    # an unsafe operation that follows matters only if its own obligation is open: where the rule of its class (tag test before a
+    # typed access, stack balance before the unchecked pop ...) holds, the operation is safe whatever the assertion says
+    open_fns = _unsafe_open_fns()
+    host = fn.path
+    if host in open_fns:
+        for b, t in fn.calls():
+            if b in after and t['callee'].get('unsafe') and user_site(t['span']):
+                return None
+        for b, si, st in fn.stmts():
+            if b in after and st['k'] == 'assign' and st['rv']['k'] == 'rawptr':
+                return None
     line = s['span'].get('line')
     for b, t in fn.calls():
         sp = t['span']
@@ -1434,6 +1501,7 @@ def developer_assertion(F, s):
 def verdict_for(ctx, s, rows=None, cache=None):
     """(ok, text) for one panic site: D0-D2 local discharge, host-I/O class, D3 table, D4"""
     F = ctx.facts()
+    _CTX[0] = ctx
     if _ALL_SITES[0] is None:
         _ALL_SITES[0] = psc.census(ctx)
     rows = rows if rows is not None else d3_table(ctx)
